@@ -10,6 +10,7 @@ import (
 	"net/url"
 	"sort"
 	"strings"
+	"time"
 
 	"verif/harness/backends"
 	"verif/harness/evid"
@@ -361,6 +362,11 @@ func (r *Runner) step(op Op) []Disc {
 
 	case "init", "part", "complete", "abort":
 		return r.stepMultipart(op)
+	case "tick":
+		// let the file systems' modification times move on (real time: the fs backends do not
+		// use the injected clock)
+		time.Sleep(15 * time.Millisecond)
+		return nil
 	}
 	return fail("harness", "unknown op %q", op.K)
 }
